@@ -15,7 +15,9 @@ import sys
 
 HERE = os.path.dirname(os.path.abspath(__file__))
 BASE = os.path.join(HERE, "source_literals.json")
-FILES = ["htmltools/_core.py", "htmltools/_util.py", "htmltools/_jsx.py", "htmltools/__init__.py", "htmltools/_versions.py"]
+FILES = ["htmltools/_core.py", "htmltools/_util.py", "htmltools/_jsx.py", "htmltools/__init__.py", "htmltools/_versions.py",
+         "htmltools/tags.py", "htmltools/svg.py"]
+BASE_INTS = os.path.join(HERE, "source_ints.json")
 
 
 def harvest(repo: str) -> list[str]:
@@ -42,6 +44,36 @@ def harvest(repo: str) -> list[str]:
     return sorted(out)
 
 
+def harvest_ints(repo: str) -> list[int]:
+    """integer literals between 8 and 4096 (sizes, lengths, depths, counts a change may compare against)"""
+    out: set[int] = set()
+    for rel in FILES:
+        try:
+            with open(os.path.join(repo, rel), encoding="utf-8") as f:
+                tree = ast.parse(f.read())
+        except (OSError, SyntaxError):
+            continue
+        for n in ast.walk(tree):
+            if isinstance(n, ast.Constant) and type(n.value) is int and 8 <= n.value <= 4096:
+                out.add(n.value)
+            if isinstance(n, ast.Constant) and isinstance(n.value, str) and len(n.value) <= 48:
+                for m in re.findall(r"\{(\d+),?(\d*)\}", n.value):       # regex quantifiers {200,} {8,64}
+                    for d in m:
+                        if d and 8 <= int(d) <= 4096:
+                            out.add(int(d))
+    return sorted(out)
+
+
+def new_ints(repo: str | None = None) -> list[int]:
+    repo = repo or os.environ.get("VERIF_REPO", "/repo")
+    try:
+        with open(BASE_INTS) as f:
+            base = set(json.load(f))
+    except OSError:
+        return []
+    return [w for w in harvest_ints(repo) if w not in base]
+
+
 def new(repo: str | None = None) -> list[str]:
     repo = repo or os.environ.get("VERIF_REPO", "/repo")
     try:
@@ -56,4 +88,6 @@ if __name__ == "__main__":
     if "--write" in sys.argv:
         with open(BASE, "w") as f:
             json.dump(harvest(os.environ.get("VERIF_REPO", "/repo")), f, indent=0, ensure_ascii=False)
-    print(new())
+        with open(BASE_INTS, "w") as f:
+            json.dump(harvest_ints(os.environ.get("VERIF_REPO", "/repo")), f)
+    print(new(), new_ints())
